@@ -331,6 +331,13 @@ impl Header {
         Ok(())
     }
 
+    #[cfg(pearl_verif)]
+    pub(crate) fn verif_with_offset(mut self, blob_offset: u64) -> bincode::Result<Self> {
+        self.blob_offset = blob_offset;
+        self.update_checksum()?;
+        Ok(self)
+    }
+
     #[inline]
     pub(crate) fn is_deleted(&self) -> bool {
         self.flags & DELETE_FLAG == DELETE_FLAG
